@@ -234,6 +234,9 @@ def check(res, tier):
                ("Text", '"\\n"', "\n"), ("Buchstabe", "'\\''", "'"), ("Buchstabe", "'ß'", "ß"), ("Buchstabe", "'\\\\'", "\\"),
                ("Wahrheitswert", "wahr", "wahr"), ("Wahrheitswert", "falsch", "falsch"), ("Kommazahl", "1,5", "1.5"),
                ("Kommazahl", "0,1", "0.1"), ("Kommazahl", "1,0000000000000002", "1")]
+    # Buchstaben literals of every plane and encoded width (written -> scanned -> constant -> encoded again when printed)
+    for cp in [0xE4, 0x7FF, 0x800, 0x20AC, 0xD7FF, 0xE000, 0xFFFD] + [pl * 0x10000 + off for pl in range(1, 17) for off in (0x0, 0x1, 0xD800, 0xDFFF, 0x8000, 0xFFFD)]:
+        samples.append(("Buchstabe", "'%s'" % chr(cp), chr(cp)))
     prog = 'Binde "Duden/Ausgabe" ein.\n'
     exp = ""
     for (_, lit, want) in samples:
